@@ -62,6 +62,10 @@ RULE = ("one scripted exchange of the real ClientSession/TCPConnector under virt
         "initial count 0-3 x nesting depth 1-2 x every sequence of timer-fire / external-cancel of length <= 3 (5 in thorough). "
         "1xx interim responses (whole / split in two segments, during or after the upload) followed by a stall or a late final "
         "response; Expect: 100-continue with fast / slow (longer than sock_read) / stalled upload. "
+        "Overlapping phases: upload parked in drain() while head and part of the body arrive, then silence in both directions; "
+        "the caller uses resp.read(), streams resp.content inside `async with`, or leaves the block after the first chunk; ended by "
+        "total / sock_read / caller cancel / early exit. Followed redirects (301/302/303/307/308) to another host with a stall on "
+        "the second hop at connect / before / inside the head / inside the body (oracle only). "
         "Distinct by scenario content.")
 TRUSTED_BASE = [
     "asyncio: Task.cancel() is delivered at the next resumption and wins over an available result; call_at fires not "
@@ -77,6 +81,8 @@ TRUSTED_BASE = [
     "co-requests H and C are environment actors whose own exchanges complete at once when unblocked",
 ]
 ASSUMPTIONS = [
+    "the model has a single hop: followed redirects are judged by the direct oracle only (total spans all hops; connect / "
+    "sock_connect / sock_read are judged per hop from the second hop's own trace)",
     "behaviour flag interimKeepsTimerWhenSent (after a 1xx interim response, does ResponseHandler.data_received keep the read "
     "timer when start_timeout() had been called?) is probed from the imported source on every run and written to "
     "Generated/C18.lean; the model is parametric in it and all theorems build for both values",
@@ -593,6 +599,78 @@ def gen_expect100(rng):
     return sc
 
 
+REDIRECT = b"HTTP/1.1 %d Found\r\nLocation: http://10.0.0.2/next\r\nContent-Length: 0\r\n\r\n"
+
+
+def gen_overlap(rng):
+    """overlapping request and response phases with the peer stalling in BOTH directions: the upload is parked in
+    drain() while head and part of the body arrive, then nothing more; the caller reads with resp.read(), streams
+    resp.content inside `async with`, or leaves the block after its first chunk; it ends by total / sock_read /
+    caller cancellation / early exit — the writer task must be gone afterwards in every variant"""
+    sc = {"t0": rng.choice(T0S), "total": None, "connect": None, "sock_connect": None, "sock_read": None, "holder": None,
+          "dns": None, "co": None, "cancel": None, "stall": "body", "body": 70000}
+    sc["consume"] = rng.choice([None, "stream", "stream", "early", "early"])
+    t = sc["t0"] + rng.choice([7, 90])
+    sc["conn"] = [t]
+    sc["wresume"] = rng.choice([-1, -1, -1, t + rng.choice([3100, 9000])])
+    framing = rng.choice(["cl", "chunked"])
+    wire, headlen, payload = build_response(rng, framing, rng.choice([10, 40]))
+    how = rng.choice(["partbody", "partbody", "head", "all"])
+    k = {"head": headlen, "partbody": rng.randrange(headlen + 1, len(wire)), "all": len(wire)}[how]
+    cuts = sorted(set([c for c in [rng.randrange(1, len(wire)) for _ in range(rng.choice([0, 1]))] if c < k] + ([k] if k < len(wire) else [])))
+    ps = pieces_of(wire, headlen, payload, cuts)
+    ps = ps[:len(cuts)] if k < len(wire) else ps
+    resp = []
+    for p in ps:
+        t += rng.choice([7, 90, 610])
+        resp.append([t, p["hex"], p["n"], p["hd"], p["bb"], p["eof"]])
+    sc["resp"] = resp
+    if how == "all":
+        sc["stall"] = "none"
+    end = rng.choice(["total", "total", "sock_read", "cancel", "cancel", "none"])
+    if end == "total":
+        sc["total"] = rng.choice(TMO_VALUES)
+    elif end == "sock_read":
+        sc["sock_read"] = rng.choice(TMO_VALUES)
+    elif end == "cancel":
+        sc["cancel"] = t + rng.choice([1, 90, 2500])
+    return sc
+
+
+def gen_redirect(rng):
+    """(oracle only: the model has a single hop) a followed redirect to another host, then a stall on the second
+    hop — connecting, awaiting the head, inside the head, inside the body — or none; one timeout kind or a caller cancel.
+    `total` spans all hops; `connect`/`sock_connect` start again with the second hop's connection"""
+    kinds = ["total", "connect", "sock_connect", "sock_read"]
+    sc = {"t0": rng.choice(T0S), "holder": None, "dns": None, "co": None, "cancel": None, "redirect": 1, "oracle_only": 1}
+    for k in kinds:
+        sc[k] = None
+    how = rng.choice(["total", "total", "total", "sock_read", "connect", "sock_connect", "cancel"])
+    if how != "cancel":
+        sc[how] = rng.choice(TMO_VALUES)
+    t = sc["t0"] + rng.choice([7, 90])
+    w = REDIRECT % rng.choice([301, 302, 303, 307, 308])
+    t1 = t + rng.choice([7, 90, 610])
+    resp = [[t1, w.hex(), len(w), 1, 0, 1]]
+    point = rng.choice(["connect", "before", "midhead", "midbody", "none"])
+    sc["stall"] = {"connect": "connect", "before": "headers", "midhead": "headers", "midbody": "body", "none": "none"}[point]
+    t2 = t1 + rng.choice([7, 90, 610])
+    sc["conn"] = [t, -1 if point == "connect" else t2]
+    wire, headlen, payload = build_response(rng, rng.choice(["cl", "chunked"]), 10)
+    k = {"connect": 0, "before": 0, "midhead": rng.randrange(1, headlen), "midbody": rng.randrange(headlen, len(wire)), "none": len(wire)}[point]
+    cuts = [k] if 0 < k < len(wire) else []
+    ps = pieces_of(wire, headlen, payload, cuts)
+    ps = ps[:len(cuts)] if k < len(wire) else ps
+    tt = t2
+    for p in ps:
+        tt += rng.choice([7, 90, 610])
+        resp.append([tt, p["hex"], p["n"], p["hd"], p["bb"], p["eof"]])
+    sc["resp"] = resp
+    if how == "cancel":
+        sc["cancel"] = tt + rng.choice([1, 90, 2500])
+    return sc
+
+
 def gen_framing(rng):
     """response framing {content-length, chunked, close-delimited} x stall point {before the head,
     inside the head, inside the body, between two chunks, body complete but never closed, none}
@@ -674,7 +752,7 @@ def model_line(sc):
     wstall = 1 if (sc.get("body", 0) > 65536 and sc.get("wresume") is not None) else 0
     return (f"run total={o(sc['total'])} connect={o(sc['connect'])} sc={o(sc['sock_connect'])} sr={o(sc['sock_read'])} "
             f"limit1={limit1} dns={0 if sc.get('dns') is None else 1} naddr={sc.get('naddr', 1)} wstall={wstall} "
-            f"think={sc.get('think', 0)} buf={sc.get('bufsize', 65536)} https={1 if sc.get('tls') is not None else 0} cd={sc.get('cd', 0)} x100={sc.get('expect100', 0)} c0={sc.get('c0', 0)} co={1 if co else 0} " + " ".join(toks))
+            f"think={sc.get('think', 0)} buf={sc.get('bufsize', 65536)} https={1 if sc.get('tls') is not None else 0} cd={sc.get('cd', 0)} early={1 if sc.get('consume') == 'early' else 0} x100={sc.get('expect100', 0)} c0={sc.get('c0', 0)} co={1 if co else 0} " + " ".join(toks))
 
 
 def impl_line(out):
@@ -773,7 +851,8 @@ def oracle(ctx, sc, out):
         if E > b:
             bad("bound/total", f"total={tot} from {t0}: must be over by {b}, ended {end}")
     if sc.get("connect"):
-        b = bound(t0, sc["connect"])
+        # `connect` bounds the acquisition of each connection: the one of a redirect's second hop from that hop's start
+        b = bound(out["trace"].get("hop2_start", t0) if sc.get("redirect") else t0, sc["connect"])
         est = tr["established"][0] if tr["established"] else INF
         if est > b and E > b:
             bad("bound/connect", f"connect={sc['connect']} from {t0}: no connection by {b}, request ended {end}")
@@ -846,6 +925,11 @@ def oracle(ctx, sc, out):
         if out["c_after"] != want and not (cancel_hit and r != "E_CANCELLED"):
             bad("cancel-count-not-restored", f"task.cancelling() was {c0} before the request and is {out['c_after']} after it "
                 f"(expected {want}; outcome {r})")
+    if sc.get("cancel") is not None and r == "pending" and out["c_before"] >= 0:
+        bad("cancel-not-delivered", f"the caller was cancelled at {sc['cancel']} while the request was running; the request "
+            "never returned (cancellation must end the request at once)")
+    elif cancel_hit and r == "E_CANCELLED" and end is not None and end > sc["cancel"]:
+        bad("cancel-delayed", f"the caller was cancelled at {sc['cancel']} but CancelledError surfaced only at {end}")
     if cancel_hit and r not in ("E_CANCELLED", "pending"):
         swallowed_tie = r == "E_TIMEOUT" and out.get("eff_total") and sc["cancel"] == bound(t0, out["eff_total"]) and out["hdr_at"] < 0 \
             and tr["established"]
@@ -868,9 +952,11 @@ def oracle(ctx, sc, out):
             bad("residue/socket-open", "a socket of an abandoned connect attempt was not closed")
         if r != "ok":
             complete = tr["eof_at"] is not None and tr["eof_at"] <= end
-            if out["open_r"] and not complete:
+            # a redirect's first hop was a complete exchange: its connection may sit in the pool
+            legit = 1 if (sc.get("redirect") and out["trace"].get("hop1_eof_at") is not None) else 0
+            if out["open_r"] - legit > 0 and not complete:
                 bad("residue/connection-not-closed", "the connection of a timed-out/cancelled exchange is still open")
-            if out["pooled_r"] and not complete:
+            if out["pooled_r"] - legit > 0 and not complete:
                 bad("residue/connection-pooled", "the connection of a timed-out/cancelled exchange went back to the pool")
         if sc.get("gz") and out["follow"] == "E_SOCK_TIMEOUT":
             bad("session-unusable/stale-read-timer-on-pooled-connection",
@@ -1120,6 +1206,8 @@ def check(ctx):
     cases += [gen_compressed_slow(ctx.rng) for _ in range(n // 60)]
     cases += [gen_interim(ctx.rng) for _ in range(n // 40)]
     cases += [gen_expect100(ctx.rng) for _ in range(n // 40)]
+    cases += [gen_overlap(ctx.rng) for _ in range(n // 20)]
+    cases += [gen_redirect(ctx.rng) for _ in range(n // 30)]
     for sc in cases:
         # the calling task may already carry handled cancellation requests (request made from an
         # `except CancelledError:` handler, or after a swallowed cancel): cancelling() in {0, 1, 2}
